@@ -16,19 +16,38 @@ Definition corresponds_bg (c : case) : bool :=
     Bool.eqb (o_requeue m) (ob_requeue o)
   end.
 
-(* the gate of C02 for the blue-green step machine: init / upgrade lead to traffic routing only behind a BatchRelease that
-   reports this step's pods Ready *)
+(* the gated path of the blue-green step machine.  It differs from the canary one in two places: Init falls through into
+   the upgrade (so Init may reach traffic routing in one reconcile, behind the same gate), and there is NO "last step at 100%"
+   shortcut out of a pause -- in blue-green, leaving the last pause is what authorises routing everything to the new version
+   and scaling the old one down *)
+Definition gated_sub_bg (sp : ro_spec) (u : sub) (w : wl) (br : option brel) (v : sub) : bool :=
+  let same_idx := su_idx v =? su_idx u in
+  match su_state u, su_state v with
+  | StInit, StUpgrade => same_idx
+  | StInit, StTraffic | StUpgrade, StTraffic => same_idx && br_ready_for sp u w br
+  | StTraffic, StMetrics => same_idx
+  | StMetrics, StPaused => same_idx
+  | StPaused, StReady =>
+    same_idx && match get_step sp (su_idx u) with
+                | Some stp => match sp_pause stp with Some d => su_elapsed u || (d <=? 0) | None => false end
+                | None => false end
+  | StReady, StInit => (su_idx v =? su_idx u + 1) && (su_idx u <? nsteps sp)
+  | StReady, StCompleted => same_idx && (nsteps sp <=? su_idx u)
+  | _, _ => false
+  end.
+
+Definition gated_transition_bg (sp : ro_spec) (old : ro_status) (w : wl) (br : option brel) (new : ro_status) : bool :=
+  match rp_sub old, rp_sub new with
+  | Some u, Some v => let u1 := observed_sub w u in gated_sub_bg sp u1 w (synced_br u1 br) v
+  | _, _ => false
+  end.
+
 Definition c02_bg_gated (c : case) : bool :=
   let o := rc_obs c in
-  match rp_sub (rc_status c), rp_sub (ob_status o), rp_prog (rc_status c) with
-  | Some u, Some v, Some (PrInRolling, _, _) =>
-    if rphase_eqb (rp_phase (rc_status c)) RpProgressing && negb (user_cause (rc_spec c) (rc_status c) (rc_wl c)) && negb (rs_paused (rc_spec c)) &&
-       negb (rs_deleting (rc_spec c)) && negb (rs_disabled (rc_spec c)) &&
-       (su_idx u =? su_idx v) && (sstate_eqb (su_state u) StInit || sstate_eqb (su_state u) StUpgrade) && sstate_eqb (su_state v) StTraffic
-    then let u1 := observed_sub (rc_wl c) u in br_ready_for (rc_spec c) u1 (rc_wl c) (synced_br u1 (rc_br c))
-    else true
-  | _, _, _ => true
-  end.
+  negb (rphase_eqb (rp_phase (rc_status c)) RpProgressing) ||
+  cursor_eqb (cursor (rc_status c)) (cursor (ob_status o)) ||
+  user_cause (rc_spec c) (rc_status c) (rc_wl c) ||
+  gated_transition_bg (rc_spec c) (rc_status c) (rc_wl c) (rc_br c) (ob_status o).
 
 Definition judge (c : case) : list verdict :=
   [ if corresponds_bg c then VOk else VMismatch;
